@@ -792,17 +792,18 @@ type Div struct {
 }
 
 type Result struct {
-	H        string `json:"h"`
-	K        int    `json:"k"`
-	Divs     []Div  `json:"divs"`
-	Trouble  string `json:"trouble,omitempty"` // machinery trouble: no verdict for this prefix
-	Sessions int    `json:"sessions"`          // persistent clients that were reconnected
-	Checked  int    `json:"checked"`           // required facts compared (sessions, subscriptions, messages, ids)
-	NSubs    int    `json:"nsubs"`             // (client, filter) pairs compared
-	NMust    int    `json:"nmust"`             // messages that had to be sent again
-	NDone    int    `json:"ndone"`             // messages that must not be sent again
-	NIds     int    `json:"nids"`              // QoS2 identifiers probed with a re-sent PUBLISH
-	WallMs   int    `json:"wall_ms"`
+	H                  string `json:"h"`
+	K                  int    `json:"k"`
+	Divs               []Div  `json:"divs"`
+	Trouble            string `json:"trouble,omitempty"`    // machinery trouble: no verdict for this prefix
+	Sessions           int    `json:"sessions"`             // persistent clients that were reconnected
+	Checked            int    `json:"checked"`              // required facts compared (sessions, subscriptions, messages, ids)
+	NSubs              int    `json:"nsubs"`                // (client, filter) pairs compared
+	NMust              int    `json:"nmust"`                // messages that had to be sent again
+	NDone              int    `json:"ndone"`                // messages that must not be sent again
+	NIds               int    `json:"nids"`                 // QoS2 identifiers probed with a re-sent PUBLISH
+	SmallWindowResumes int    `json:"small_window_resumes"` // first resumes with Receive Maximum 1 (batched in-flight replay)
+	WallMs             int    `json:"wall_ms"`
 }
 
 func optsOf(s *gmqtt.Subscription) Opts {
@@ -1014,6 +1015,65 @@ func restart(rec *Recorded, pl *Plan) (res *Result) {
 			msgs[m.C] = map[string]string{}
 		}
 		msgs[m.C][m.M] = m.St
+	}
+	// ---- on every third prefix: a first resume with Receive Maximum 1 (MQTT 5 clients with at least two stored unacknowledged
+	// messages): the stored in-flight messages are read from the store in several batches; nothing is acknowledged, the
+	// connection is dropped.  Whatever that resume did to the store, the second resume below is still owed everything.
+	if pl.K%3 == 1 {
+		for _, c := range order {
+			def := rec.Clients[c]
+			nmust := 0
+			for _, st := range msgs[c] {
+				if st == "must" {
+					nmust++
+				}
+			}
+			if def.Ver != 5 || nmust < 2 {
+				continue
+			}
+			// twice: with the default window (everything stored is sent and becomes in flight, with packet ids, in the store),
+			// then with Receive Maximum 1
+			for round := 0; round < 2; round++ {
+				a, p, err := dialConnect(b.Addr, c, def, false)
+				if err != nil {
+					res.Trouble = "dial: " + err.Error()
+					return
+				}
+				if p.Props == nil {
+					p.Props = &mw.Props{}
+				}
+				if round == 1 {
+					p.Props.ReceiveMax = mw.U16(1)
+				}
+				if err := a.c.Send(p); err != nil {
+					res.Trouble = "send CONNECT: " + err.Error()
+					return
+				}
+				if ack, err := a.expect(tAck, func(p *mw.Packet) bool { return p.Type == mw.CONNACK }); err == nil && ack.Code == 0 && ack.SessionPresent {
+					want := nmust
+					if round == 1 {
+						want = 1 // window 1
+					}
+					for i := 0; i < want; i++ { // nothing is acknowledged
+						if _, err := a.expect(tAck/5, func(p *mw.Packet) bool { return p.Type == mw.PUBLISH }); err != nil {
+							break
+						}
+					}
+					time.Sleep(30 * time.Millisecond)
+					if round == 1 {
+						res.SmallWindowResumes++
+					}
+				}
+				a.c.Close()
+				// wait until the broker has let go of the connection (the next CONNECT must not race with its teardown)
+				for i := 0; i < 200; i++ {
+					if b.Srv.ClientService().GetClient(c) == nil {
+						break
+					}
+					time.Sleep(5 * time.Millisecond)
+				}
+			}
+		}
 	}
 	for _, c := range order {
 		def := rec.Clients[c]
